@@ -254,6 +254,8 @@ class Exec:
         if f == "abs":
             f = "absolute"
         fn = getattr(self.lib, f) if f != "relu" else None
+        if self.be == "mg" and (s.get("kw") or {}).get("constant", "none") != "none":
+            kw["constant"] = s["kw"]["constant"] == "true"
         r = fn(*xs, out=self.H[s["out"]], **kw)
         assert r is self.H[s["out"]]
 
@@ -271,6 +273,13 @@ class Exec:
             self.H[s["h"]].backward(seed)
         else:
             self.H[s["h"]].backward()
+
+    def do_setshape(self, s):
+        import warnings
+
+        with warnings.catch_warnings():
+            warnings.simplefilter("ignore")  # NumPy 2.5 deprecates ndarray.shape assignment (it still works)
+            self.H[s["t"]].shape = tuple(s["sh"])
 
     def do_copy(self, s):
         src = self.H[s["a"][0]["h"]]
